@@ -1,6 +1,6 @@
 """Generator of programs in the proven fragment: the while-language over global
 variables (expression statements, assignments, calls of the built-ins write,
-toa and aton as statements, blocks, if, if/else, while with
+toa, aton and read as statements and as right sides of assignments, blocks, if, if/else, while with
 pure conditions; literals, globals, all operators, array literals, indexing,
 slicing).  Every loop is bounded by a counter the loop body increments, so the
 programs terminate."""
@@ -80,7 +80,11 @@ class G:
                 return "write(%s)" % self.any_expr(2)
             if k < 0.28:
                 return "toa(%s)" % self.any_expr(2)
-            if k < 0.34:
+            if k < 0.30:
+                g = r.choice(NAMES)
+                return r.choice(["%s = toa(%s)" % (g, self.any_expr(1)), "%s = aton(%s)" % (g, r.choice(['"12"', '"2.5"', '"q"', "sa"])),
+                                 "%s = read()" % g, "read()", "%s = write(%s)" % (g, self.expr(1))])
+            if k < 0.36:
                 return "aton(%s)" % r.choice(['"12"', '"-7"', '"1.5"', '"4e1"', '"x"', '""', "sa", "sb", "ga", '"9223372036854775808"',
                                               "(%s + %s)" % (r.choice(['"1"', '"2"']), r.choice(['"0"', '".5"', '"e"']))])
             if k < 0.67:
